@@ -1,6 +1,11 @@
 mod props;
 
 fn main() {
+    let args: Vec<String> = std::env::args().collect();
+    if args.get(1).map(|s| s.as_str()) == Some("c15-child") {
+        simcore::libc_seams::link_me();
+        std::process::exit(props::c15::child_main(&args[2]));
+    }
     let props = props::all();
     std::process::exit(simcore::runner::cli_main(&props));
 }
